@@ -503,6 +503,16 @@ func hasUnrepresentableNumber(n *refjson.Node) bool {
 func shrinkBytes(c engine.Case) []engine.Case {
 	d := c.Data.(Data)
 	var out []engine.Case
+	if len(d.Src) > 2000 {
+		// large documents (size family): remove halves, quarters, eighths only
+		for _, parts := range []int{2, 4, 8} {
+			chunk := len(d.Src) / parts
+			for i := 0; i < parts; i++ {
+				out = append(out, mk(append(append([]byte{}, d.Src[:i*chunk]...), d.Src[(i+1)*chunk:]...)))
+			}
+		}
+		return out
+	}
 	for i := range d.Src {
 		out = append(out, mk(append(append([]byte{}, d.Src[:i]...), d.Src[i+1:]...)))
 	}
